@@ -647,16 +647,16 @@ package input
 // decorators), each once.
 //@ func DefaultMetaValidators
 //@   property C11
-//@   ensures [meta] len(result) == 1 && (forall m Input :: apply(result[0], m) == ValidateMeta(m))
+//@   ensures [meta] len(result) == 1 && result[0] != nil && (forall m Input :: apply(result[0], m) == ValidateMeta(m))
 //@ func DefaultParamsValidators
 //@   property C11
-//@   ensures [params] len(result) == 1 && (forall m Input :: apply(result[0], m) == ValidateParams(m))
+//@   ensures [params] len(result) == 1 && result[0] != nil && (forall m Input :: apply(result[0], m) == ValidateParams(m))
 //@ func DefaultServicesValidators
 //@   property C11 C13 C15
-//@   ensures [services] len(result) == 1 && (forall m Input :: apply(result[0], m) == ValidateServices(m))
+//@   ensures [services] len(result) == 1 && result[0] != nil && (forall m Input :: apply(result[0], m) == ValidateServices(m))
 //@ func DefaultDecoratorsValidators
 //@   property C11 C04
-//@   ensures [decorators] len(result) == 1 && (forall m Input :: apply(result[0], m) == ValidateDecorators(m))
+//@   ensures [decorators] len(result) == 1 && result[0] != nil && (forall m Input :: apply(result[0], m) == ValidateDecorators(m))
 //@ func DefaultVersionValidators
 //@   property C18 C11
 //@   ensures [one_gate] len(result) == 1
@@ -668,4 +668,5 @@ package input
 //@   ensures [decorator_rules_applied] exists j int :: 0 <= j && j < len(result.validators) && (forall m Input :: apply(result.validators[j], m) == ValidateDecorators(m))
 //@ func NewValidator
 //@   property C11
-//@   ensures [keeps_the_list] result != nil && result.validators == validators
+//@   ensures [keeps_the_list] result != nil && ((forall j int :: 0 <= j && j < len(validators) ==> validators[j] != nil) ==> len(result.validators) == len(validators) && (forall j int :: 0 <= j && j < len(validators) ==> result.validators[j] == validators[j]))
+//@   ensures [every_given_validator_is_kept] forall j int :: 0 <= j && j < len(validators) && validators[j] != nil ==> (exists k int :: 0 <= k && k < len(result.validators) && result.validators[k] == validators[j])
